@@ -16,6 +16,8 @@
 import GoMC.Lemmas.NBTCarrier
 import GoMC.Lemmas.NBTField
 import GoMC.Lemmas.NBTFragment
+import GoMC.Lemmas.NBTZero
+import GoMC.Lemmas.NBTHistory
 namespace GoMC.Props.C02
 open GoMC GoMC.Rd GoMC.Model GoMC.Model.NBT GoMC.Model.Go GoMC.Lemmas.NBTDecode GoMC.Lemmas.NBTTyped
 open GoMC.Spec (NBT encPayload encList encKvs encDoc Format docName)
@@ -260,6 +262,43 @@ theorem C02_roundtrip_value_partial (cx : SnbtCarrier) {τ : GoType} {k : Cls} (
         s'.failing = s.failing :=
   plain_roundtrip_value cx hτ disallow fmt name v hname hv
 
+/-- **Histories.** Result `i` of a history of `Marshal` calls, all results kept and read after the last call, is
+`Marshal` of value `i` alone — for EVERY value (inside the fragment or not, accepted or refused), whatever was
+marshalled before and after it: `Marshal` hands out bytes no later call writes to. -/
+theorem C02_marshal_history_independent (cx : SnbtCarrier) (pre post : List EncCall) (c : EncCall) :
+    (marshalHist cx (pre ++ c :: post))[pre.length]? = some (encode cx c.network c.name c.v) :=
+  GoMC.Lemmas.NBTHistory.marshalHist_getElem cx pre post c
+
+/-- ONE `Encoder` on one buffer for a whole history (`encoderHist`; a failing call leaves `part c` behind, any
+bytes): the stretch a successful call filled is that call's document alone. Two histories that agree on the call
+agree on its stretch — other prefixes, other suffixes, other leftovers of failed calls, another buffer. -/
+theorem C02_encoder_history_independent (cx : SnbtCarrier) (part part' : EncCall → Bytes) (w w' : Bytes)
+    (pre post pre' post' : List EncCall) (c : EncCall) (bs : Bytes) (h : encode cx c.network c.name c.v = Res.ok bs) :
+    ((encoderHist cx part w (pre ++ c :: post)).drop (GoMC.Lemmas.NBTHistory.offset cx part w pre)).take bs.length = bs ∧
+    ((encoderHist cx part' w' (pre' ++ c :: post')).drop (GoMC.Lemmas.NBTHistory.offset cx part' w' pre')).take bs.length = bs :=
+  ⟨GoMC.Lemmas.NBTHistory.encoderHist_slice cx part w pre post c bs h,
+   GoMC.Lemmas.NBTHistory.encoderHist_slice cx part' w' pre' post' c bs h⟩
+
+/-- … hence every result held from a history decodes back to its own value: round trip for each call of a history
+of `Marshal` calls with canonical values of fragment types. -/
+theorem C02_marshal_history_roundtrip_partial (cx : SnbtCarrier) {τ : GoType} {k : Cls} (hτ : Plain τ k) (disallow : Bool)
+    (fmt : Format) (name : Bytes) (v : GoVal) (hname : name.length < 32768) (hv : k.canon v) (pre post : List EncCall) :
+    ∃ doc, (marshalHist cx (pre ++ ⟨isNet fmt, name, some v⟩ :: post))[pre.length]? = some (Res.ok doc) ∧
+    ∀ (s : Stream) (rest : Bytes), s.flat = doc ++ rest →
+      ∃ s', decodeTyped cx (isNet fmt) disallow τ s = (Res.ok (v, docName fmt name), s') ∧ s'.flat = rest ∧
+        s'.failing = s.failing := by
+  obtain ⟨t, _, henc, hdec⟩ := C02_roundtrip_value_partial cx hτ disallow fmt name v hname hv
+  exact ⟨encDoc fmt name t, by rw [GoMC.Lemmas.NBTHistory.marshalHist_getElem, henc], hdec⟩
+
+/-- a history with a byte array, a refused value, `[]any` of bools (a byte array after a larger one), both inside one
+document, and `[]any` again: every result is what the single call gives (the bytes are spelled out in
+`Lemmas/NBTHistory`) -/
+example : marshalHist GoMC.Lemmas.NBTHistory.cx0 GoMC.Lemmas.NBTHistory.calls =
+    GoMC.Lemmas.NBTHistory.calls.map (fun c => encode GoMC.Lemmas.NBTHistory.cx0 c.network c.name c.v) ∧
+    (marshalHist GoMC.Lemmas.NBTHistory.cx0 GoMC.Lemmas.NBTHistory.calls)[2]? = some (Res.ok [7, 0, 0, 0, 2, 0, 1]) ∧
+    (marshalHist GoMC.Lemmas.NBTHistory.cx0 GoMC.Lemmas.NBTHistory.calls)[4]? = some (Res.ok [7, 0, 0, 0, 2, 0, 1]) :=
+  ⟨rfl, by decide, by decide⟩
+
 /-- What Go gives for a nil pointer: at every position — the root, a struct field (without `omitempty`), a slice
 element, a map value all go through `getTagType` — `Encode` treats `(*T)(nil)` exactly as a pointer to the zero
 value of `T`. -/
@@ -318,6 +357,15 @@ theorem C02_any_slice_array_refused (cx : SnbtCarrier) (disallow : Bool) (fuel :
     (h : tag.toNat = 7 ∨ tag.toNat = 11 ∨ tag.toNat = 12) (s s' : Stream) (v : GoVal) :
     unmarshal cx disallow fuel (.slice .iface) old tag s ≠ (Res.ok v, s') :=
   unmarshal_typedArray_sliceAny cx disallow fuel old tag h s s' v
+
+/-- `zeroNeverEnds` (the test behind "a nil pointer of a recursive type has no finite encoding") is a depth-first search
+over the struct types on the CURRENT path: its verdict depends on the type alone, and for every type of this universe
+— finite trees; a struct type occurring at several sibling places, as `Pos` in `Box{Min, Max Pos}`, included — it is
+"no": a nil pointer always has an encoding, the zero value of its element type (`C02_nil_pointer_as_zero`). -/
+theorem C02_zero_never_ends (t : GoType) : zeroNeverEnds t = false := GoMC.Lemmas.NBTZero.zeroNeverEnds_false t
+
+example : zeroNeverEnds (.ptr GoMC.Lemmas.NBTZero.box) = false ∧ zeroNeverEnds (.slice (.ptr GoMC.Lemmas.NBTZero.box)) = false :=
+  ⟨by decide, by decide⟩
 
 /-- the same through `packet.NBTField`: `WriteTo` writes the network-format document and reports its length,
 `ReadFrom` into a fresh variable returns the value and the same count -/
